@@ -820,6 +820,8 @@ TRIMS = {
     'triangle_cw': [('1/5', '1/4'), ('9/20', '17/20'), ('4/5', '7/20')],
     'ell': [('8/37', '9/41'), ('30/37', '9/41'), ('30/37', '20/41'), ('19/37', '20/41'), ('19/37', '33/41'), ('8/37', '33/41')],
     'sliver': [('1/7', '10/23'), ('6/7', '11/23'), ('6/7', '13/23'), ('1/7', '12/23')],
+    # crosses the u = 1 and the v = 1 border of the parameter rectangle
+    'border': [('3/5', '3/5'), ('6/5', '3/5'), ('6/5', '6/5'), ('3/5', '6/5')],
     # control polygon of a closed quadratic B-spline (first = last control point)
     'spline': [('1/2', '1/6'), ('5/6', '1/5'), ('4/5', '4/5'), ('1/2', '6/7'), ('1/6', '3/4'), ('1/5', '1/4'), ('1/2', '1/6')],
 }
@@ -903,7 +905,11 @@ def _trim_instances(tier):
                       '_tessellate.make_triangle_mesh', '_tessellate.polygon_triangulate', 'linalg.wn_poly',
                       'linalg.triangle_center', 'ray.intersect', 'ray.Ray', 'abstract.Surface.tessellate',
                       'abstract.Surface.trims', 'abstract.Surface.add_trim', 'freeform.Freeform.evaluate'],
-          quick=lambda: _trim_instances('quick'), thorough=lambda: _trim_instances('thorough'))
+          quick=lambda: _trim_instances('quick'), thorough=lambda: _trim_instances('thorough'),
+          # the same contract run natively: sample sizes whose accumulated grid coordinate ends a rounding error above 1.0
+          # (u += u_jump in make_triangle_mesh), with trims crossing the u = 1 / v = 1 border - a floating-point-only matter
+          native=lambda tier: [dict(trim='border', n=[n1, n2], sp=1, sense=0, places=2)
+                               for n1, n2 in ((10, 10), (12, 10), (19, 12), (21, 19))])
 def trim_region(ctx, trim, n, sp, sense, places):
     """EXPLORATION-GRADE sub-claim: a handful of concrete trim placements and sample sizes, not a proof over trims.
 
